@@ -174,11 +174,24 @@ def axiom_audit(pid, names):
 PROP = [""]   # the property being decided: some monitors of the driver belong to one property only
 
 
-def drive(cases_path, verd_path):
+DRIVER_MEM = 16 << 30      # address-space limit of one driver process
+DRIVER_GAVE_UP = [0]       # cases on which the model driver itself failed (memory, stack, time): not compared, counted
+
+
+def _limit_driver():
+    import resource
+    resource.setrlimit(resource.RLIMIT_AS, (DRIVER_MEM, DRIVER_MEM))
+
+
+def drive(cases_path, verd_path, nlines=0):
     env = dict(os.environ)
     env["VERIF_PROP"] = PROP[0]
     with open(cases_path) as fi, open(verd_path, "w") as fo:
-        p = subprocess.run([DRIVER], stdin=fi, stdout=fo, stderr=subprocess.PIPE, text=True, env=env)
+        try:
+            p = subprocess.run([DRIVER], stdin=fi, stdout=fo, stderr=subprocess.PIPE, text=True, env=env,
+                               preexec_fn=_limit_driver, timeout=600 + nlines // 50)
+        except subprocess.TimeoutExpired:
+            return 124, "driver timed out"
     return p.returncode, p.stderr
 
 
@@ -215,10 +228,19 @@ def judge_lines(lines, wd, tag="exec"):
     with open(cp, "w") as w:
         for l in lines:
             w.write(l + "\n")
-    rc, err = drive(cp, vp)
-    if rc != 0:
-        raise RuntimeError("driver failed: " + err)
-    return [l.rstrip("\n") for l in open(vp)]
+    rc, err = drive(cp, vp, len(lines))
+    if rc == 0:
+        return [l.rstrip("\n") for l in open(vp)]
+    # the model driver itself failed (out of memory, stack, time) somewhere in this batch: halve the batch until the
+    # case is isolated; that case is not compared (verdict X 1 driver-gave-up) and counted in the evidence
+    if len(lines) <= 1:
+        DRIVER_GAVE_UP[0] += len(lines)
+        sys.stderr.write("NOTE: the model driver gave up on one case (rc=%s): %s\n" % (rc, (lines[0][:300] if lines else "")))
+        return ["X 1 driver-gave-up"] * len(lines)
+    if DRIVER_GAVE_UP[0] > 20:
+        raise RuntimeError("driver failed repeatedly: " + err)
+    h = len(lines) // 2
+    return judge_lines(lines[:h], wd, tag) + judge_lines(lines[h:], wd, tag)
 
 
 def lhs_of(line):
@@ -470,6 +492,8 @@ def check(pid, tier, seed):
                 bad.append((ename, l, v))
             if k.startswith("X"):
                 dist["unmodelled-input"] = dist.get("unmodelled-input", 0) + 1
+        if DRIVER_GAVE_UP[0]:
+            dist["driver-gave-up"] = DRIVER_GAVE_UP[0]
 
     # ---- 4. verdicts
     unlisted_p0 = []
